@@ -188,8 +188,6 @@ def read_type(el):
                 v = int(v)
             elif isinstance(enc, ir.FloatEnc):
                 v = float(v)
-            else:
-                v = v.encode("latin-1")
             vals.append((v, e.get("label")))
         enum = tuple(vals)
     return ir.PType(el.get("name"), kind, enc, unit, enum)
